@@ -135,6 +135,42 @@ class FnView:
                     work.append((s, 0))
         return out
 
+    def flow_from(self, sid, stop=()):
+        """(statement ids reachable after statement sid — from the function entry if sid is None —
+        without passing a statement in `stop`, whether a normal exit is reachable that way)"""
+        if sid is None:
+            start = (self.cfg.entry, 0)
+        else:
+            p = self.pos(sid)
+            if p is None:
+                return set(), False
+            start = (p[0], p[1] + 1)
+        normal = set(self.cfg.normal_exit_preds())
+        seen = set()
+        out = set()
+        exits = False
+        work = [start]
+        while work:
+            b, k = work.pop()
+            el = self.cfg.blocks[b]["el"]
+            blocked = False
+            for j in range(k, len(el)):
+                if el[j] in stop:
+                    blocked = True
+                    break
+                out.add(el[j])
+            if blocked:
+                continue
+            for s in self.succ(b):
+                if s == self.cfg.exit:
+                    if b in normal:
+                        exits = True
+                    continue
+                if s not in seen:
+                    seen.add(s)
+                    work.append((s, 0))
+        return out, exits
+
     def branch_atom(self, b):
         """the atomic condition whose value decides the branch at the end of block b.  clang's CFG
         splits `a && b` / `a || b` into one block per operand; the terminator of a block that ends in
@@ -294,8 +330,9 @@ def cfg_nfa(view, label_of):
     return nfa
 
 
-def lang_diff(a, b):
-    """shortest word accepted by exactly one of the NFAs: (word, 'left'|'right') or None if equal"""
+def lang_diff(a, b, only_left=False):
+    """shortest word accepted by exactly one of the NFAs: (word, 'left'|'right') or None if equal;
+    only_left: only words accepted by a and not by b (language inclusion a <= b)"""
     from collections import deque
     la, lb = a.live(), b.live()
     sa = a.closure({a.start})
@@ -305,7 +342,7 @@ def lang_diff(a, b):
     while q:
         x, y, w = q.popleft()
         ax, ay = a.accepting(x), b.accepting(y)
-        if ax != ay:
+        if ax != ay and (ax or not only_left):
             return w, ("left" if ax else "right")
         for lab in sorted(a.labels(x) | b.labels(y), key=str):
             nx = frozenset(s for s in a.step(x, lab) if s in la)
